@@ -219,6 +219,64 @@ fn function_named_cases() -> Vec<Wrap> {
     out
 }
 
+/// field paths of two and three levels: each way of asking about the last field agrees, whatever came before it
+#[derive(Clone, Debug, Serialize, Deserialize)]
+pub struct Path {
+    /// fields leading to the map that is asked
+    pub prefix: Vec<String>,
+    pub last: String,
+    pub literal: bool,
+}
+
+fn path_root() -> V {
+    let leaf = V::Map(vec![(V::s("b"), V::Int(1)), (V::s("z"), V::Int(0)), (V::s("size"), V::Int(3))]);
+    let mid = V::Map(vec![(V::s("a"), leaf.clone()), (V::s("e"), V::Map(vec![])), (V::s("b"), V::Int(5))]);
+    V::Map(vec![(V::s("a"), leaf), (V::s("m"), mid), (V::s("k"), V::s("v"))])
+}
+
+pub fn check_path(c: &Path) -> Outcome {
+    let root = path_root();
+    // the map that is asked, by following the prefix in the model
+    let mut cur = root.clone();
+    for f in &c.prefix {
+        let V::Map(es) = &cur else { return Outcome::Skip("prefix-leaves-the-maps") };
+        match es.iter().find(|(k, _)| matches!(k, V::Str(s) if s == f)) {
+            Some((_, v)) => cur = v.clone(),
+            None => return Outcome::Skip("prefix-field-absent"),
+        }
+    }
+    let V::Map(es) = &cur else { return Outcome::Skip("prefix-does-not-end-in-a-map") };
+    let present = es.iter().find(|(k, _)| matches!(k, V::Str(s) if *s == c.last));
+    let (rs, vars) = if c.literal { (lit::lit(&root).unwrap(), vec![]) } else { ("m".to_string(), vec![("m".to_string(), root.clone())]) };
+    let path = c.prefix.iter().map(|f| format!(".{f}")).collect::<String>();
+    let last = &c.last;
+    let forms = [
+        (format!("has({rs}{path}.{last})"), 0),
+        (format!("{} in {rs}{path}", lit::str_lit(last)), 0),
+        (format!("{rs}{path}.contains({})", lit::str_lit(last)), 0),
+        (format!("{rs}{path}[{}]", lit::str_lit(last)), 1),
+        (format!("{rs}{path}.{last}"), 2),
+    ];
+    for (src, kind) in forms {
+        let got = match sut::run_src(&src, &vars) {
+            Ran::Done(r) => r,
+            o => return fail(format!("`{src}`: {}", o.show())),
+        };
+        let ok = match (kind, present, &got) {
+            (0, p, R::Val(V::Bool(b))) => *b == p.is_some(),
+            (1 | 2, Some((_, v)), R::Val(g)) => same(v, g),
+            (1, None, R::Val(V::Null)) => true,
+            (2, None, R::Err(..)) => true,
+            (2, None, R::Val(V::Func(..))) => true,
+            _ => false,
+        };
+        if !ok {
+            return fail(format!("`{src}` with m = {root:?}: the field {last:?} of m{path} is {}, observed {}", if present.is_some() { "present" } else { "absent" }, got.show()));
+        }
+    }
+    pass_n(true, vec![if present.is_some() { "nested-field-present" } else { "nested-field-absent" }])
+}
+
 #[derive(Clone, Debug, Serialize, Deserialize)]
 pub struct MapLit {
     pub keys: Vec<u8>,
@@ -437,6 +495,17 @@ pub fn run(r: &mut Runner) {
     r.sweep("wrapping-int-uint-keys", wrap_cases(), check_wrap);
     r.sweep("falsy-values-under-every-query-form", falsy_cases(), check_wrap);
     r.sweep("function-named-string-keys", function_named_cases(), check_wrap);
+    {
+        let mut cases = vec![];
+        for prefix in [vec!["a"], vec!["m"], vec!["m", "a"], vec!["m", "e"]] {
+            for last in ["b", "z", "q", "a", "e", "size"] {
+                for literal in [false, true] {
+                    cases.push(Path { prefix: prefix.iter().map(|s| s.to_string()).collect(), last: last.to_string(), literal });
+                }
+            }
+        }
+        r.sweep("nested-field-presence", cases, check_path);
+    }
     {
         let alpha = [V::Int(1), V::Int(2), V::s("a")];
         let mut cases = vec![];
